@@ -73,6 +73,10 @@ def gen_plan(rng, index, tier):
                     # the quantity the solver recomputes holds block-by-block values (they differ from ring to ring)
                     uid += 1
                     steps.append({"op": "edit", "u": uid, "which": "vVol", "idx": rng.randrange(1000)})
+                if rng.random() < 0.5:
+                    # ... and a flux solution (multigroup, with its scalar)
+                    uid += 1
+                    steps.append({"op": "edit", "u": uid, "which": "mgFlux", "idx": rng.randrange(1000)})
                 steps.append(s)
                 if rng.random() < 0.7:
                     uid += 1
@@ -269,6 +273,9 @@ class Runner:
                     # the same array object on two parameters (what "last = current" bookkeeping does)
                     b.p.mgFlux = arr
                     b.p.lastMgFlux = arr
+                    # ... and the scalar flux that belongs to it (the integrated flux over the volume
+                    # of the part of the block that is in the model)
+                    b.p.flux = float(sum(arr)) / float(b.getVolume())
             elif st["which"] == "boundary":
                 import numpy as np
 
@@ -288,6 +295,8 @@ class Runner:
                 asms[st["idx"] % len(asms)].rotate(math.radians(60.0 * (1 + st["idx"] % 5)))
                 self.probe("source_assembly_rotated_beforehand")
             elif st["which"] == "flux":
+                if "mgFlux" in self.assigned:
+                    return False  # the scalar flux stays the one that belongs to the multigroup flux
                 blks[st["idx"] % len(blks)].p.flux = 1e12 + st["u"]
             else:
                 blks[st["idx"] % len(blks)].p.vP0 = float(st["u"])
@@ -391,6 +400,21 @@ class Runner:
                 self.edge_solver = True
                 if "vVol" in self.assigned:
                     self.marks_cleared["vVol"] = False
+                if "mgFlux" in self.assigned:
+                    # the flux solution too: half of the integrated multigroup flux on either twin
+                    # (new arrays; the scalar flux is intensive and stays)
+                    import numpy as np
+
+                    for aa in core.getAssembliesOnSymmetryLine(grids.BOUNDARY_0_DEGREES):
+                        for b in aa:
+                            if b.p.mgFlux is not None and len(b.p.mgFlux):
+                                b.p.mgFlux = np.array(b.p.mgFlux, dtype=float) / 2.0
+                    for aa in core.getAssembliesOnSymmetryLine(grids.BOUNDARY_120_DEGREES):
+                        for b in aa:
+                            if b.p.mgFlux is not None and len(b.p.mgFlux):
+                                b.p.mgFlux = np.array(b.p.mgFlux, dtype=float) * 1.0
+                    self.marks_cleared["mgFlux"] = False
+                    self.probe("flux_solver_ran_with_edge_assemblies")
                 self.probe("solver_ran_with_edge_assemblies")  # addEdgeAssemblies clears the "assigned since the last geometry transformation" marks
             nonc = [a for a in lower if tuple(int(x) for x in a.spatialLocator.indices[:2]) != (0, 0)]
             if added != len(nonc):
@@ -409,7 +433,7 @@ class Runner:
             if had and getattr(self, "edge_solver", False):
                 # the halves are joined for the quantities the solver (is known to have) produced;
                 # "power" is named too, as the gamma solver's driver does, but was not recomputed
-                gc.EdgeAssemblyChanger.scaleParamsRelatedToSymmetry(core, paramsToScaleSubset=["power", "vVol"])
+                gc.EdgeAssemblyChanger.scaleParamsRelatedToSymmetry(core, paramsToScaleSubset=["power", "vVol", "mgFlux"])
                 self.edge_solver = False
             e.removeEdgeAssemblies(core)
             removed_some = len(core) < n_before
